@@ -101,6 +101,9 @@ package main
 // Every service of every generation is given the server's one replay cache.
 //@ func (*OutlineServer).runConfig$1$1
 //@   props C07 C09 C10 C18
+//@   loop 1 invariant portCiphers != nil && (forall p int :: has(portCiphers, p) ==> portCiphers[p] != nil && keyListOK(portCiphers[p])) \
+//@     && (forall p int :: forall q int :: has(portCiphers, p) && has(portCiphers, q) && p != q ==> portCiphers[p] != portCiphers[q])
+//@   loop 2 invariant portCiphers != nil && (forall p int :: has(portCiphers, p) ==> portCiphers[p] != nil && keyListOK(portCiphers[p]))
 //@   trace[C07,one-cache-for-all-services] each service.WithReplayCache satisfies $arg0 == &s.replayCache
 //@   trace[C07,every-service-gets-the-cache] each service.NewShadowsocksService satisfies evcount("service.WithReplayCache") >= 1
 //@   acquires-level 5
@@ -125,5 +128,6 @@ package main
 //@   requires replayHistory <= 20000 && validServerMetrics(serverMetrics)
 
 //@ func newCipherListFromConfig
-//@   props C09 C18
+//@   props C01 C09 C18
+//@   loop 1 invariant cipherList != nil && keyListOK(cipherList) && existingCiphers != nil
 //@   ensures result.1 == nil ==> result.0 != nil
